@@ -3,8 +3,8 @@ CONSTANTS
   GenFiles = {1, 3}
   OtherFiles = {}
   Modes = {292, 420}
-  Variants = {0}
-  ChmodGate = FALSE
+  Variants = {0, 4, 7, 8}
+  ChmodGate = TRUE
   CopyGate = TRUE
   Truncates = TRUE
   PPOrder = "program_first"
@@ -13,5 +13,12 @@ CONSTANTS
   EnvOn = TRUE
   Record = FALSE
   MaxSteps = 0
+INVARIANT TypeOK
 INVARIANT RunEndOK
+INVARIANT RequestedMode
+INVARIANT NoTornFile
+INVARIANT IdleModes
+INVARIANT NeverDenied
+INVARIANT RefusedOnlyOnConflict
+INVARIANT UntouchedOthers
 CHECK_DEADLOCK FALSE
